@@ -15,7 +15,7 @@ open Btcdeb
 namespace Driver
 
 def extraCmds : List (String × (Bool → List String → String)) :=
-  [ ("TCE", cmdTce), ("TAP", cmdTap), ("TAPARGS", cmdTapArgs), ("TAPSIGHASH", cmdTapSighash),
+  [ ("TCE", cmdTce), ("TAP", cmdTap), ("TAPBRANCH", cmdTapBranch), ("TAPARGS", cmdTapArgs), ("TAPSIGHASH", cmdTapSighash),
     ("SIGHASH", cmdSighash), ("PRECOMP", cmdPrecomp), ("CHECKSIGTX", cmdChecksigTx), ("CHECKLOCK", cmdChecklock),
     ("INSTTXDATA", cmdInstTxData), ("CALCSIGHASH", cmdCalcSighash), ("PRUN", cmdPrun),
     ("SPEND", fun spec a => if spec then cmdSpendSpec a else cmdSpendModel a),
